@@ -7,7 +7,8 @@
     C  height,prevMTP,prevTime,expectedBits(hex),now
     H  version,bits(hex),time,hashNum(hex)
     B  strippedSize,totalSize,merkleOk,dupTxids,commit,cbHeight
-    S  hOk,hFail   best-chain height the scenario ends with if the candidate is valid / invalid
+    S  hOk,hFail,inOk   best-chain height the scenario ends with if the candidate is valid / invalid; whether a
+                        valid candidate ends on the active chain (0 for a template check, which stores nothing)
     tx version;lockTime;strippedSize;dupInputs;script0Len;legacySigops;hasWitness;overwrites;outs;ins
        outs  v_v_v…  (v*k = k copies), ~ = none
        ins   in/in/…  ~ = none; in = null:seq:avail:isCb:originHeight:originPrevMTP:amount:p2shSigops:witSigops:failsAlways:failsUnder
@@ -72,14 +73,14 @@ def pBlock? (s : String) (txs : List TxFacts) : Option BlockFacts :=
     pure ⟨← ss.toInt?, ← ts.toInt?, txs, ← pBool? mo, ← pBool? dt, ← cm.toNat?, ← ch.toInt?⟩
   | _ => none
 
-def pScen? (s : String) : Option (Int × Int) :=
+def pScen? (s : String) : Option (Int × Int × Nat) :=
   match s.splitOn "," with
-  | [a, b] => do pure (← a.toInt?, ← b.toInt?)
+  | [a, b, c] => do pure (← a.toInt?, ← b.toInt?, ← c.toNat?)
   | _ => none
 
-def answer (mode : String) (d : Desc) (hOk hFail : Int) : String :=
+def answer (mode : String) (d : Desc) (hOk hFail : Int) (inOk : Nat) : String :=
   match validBlock d with
-  | .ok _ => s!"accept in=1 h={hOk}"
+  | .ok _ => s!"accept in={inOk} h={hOk}"
   | .error _ =>
     if mode == "VC" then s!"reject:{String.intercalate "+" (violatedClasses d)} in=0 h={hFail}"
     else s!"reject in=0 h={hFail}"
@@ -88,9 +89,9 @@ def handle : List String → String
   | "blk" :: mode :: _recipe :: p :: c :: h :: b :: s :: txs =>
     if mode != "VC" && mode != "V" then "bad-op" else
     match pParams? p, pCtx? c, pHeader? h, txs.mapM pTx?, pScen? s with
-    | some p, some c, some h, some txs, some (hOk, hFail) =>
+    | some p, some c, some h, some txs, some (hOk, hFail, inOk) =>
       match pBlock? b txs with
-      | some b => answer mode ⟨p, c, h, b⟩ hOk hFail
+      | some b => answer mode ⟨p, c, h, b⟩ hOk hFail inOk
       | none => "bad-op"
     | _, _, _, _, _ => "bad-op"
   | _ => "bad-op"
